@@ -67,7 +67,7 @@ PROPS.update({
         "rule": "every k in 1..=10 with all 4^k codes: column count = closed form, every canonical code maps to its "
                 "rank in the sorted model index and the inverse map returns it; header through get_header (k<=8) and "
                 "through both writer paths x 3 delimiters (k<=6); header line of `kmertools comp oligo -H` for k 3..=7 x 3 presets x "
-                "(default, -c) and of pykmertools get_header for k 1..=8. Non-trivial = each canonical code / header checked.",
+                "(default, -c) and of pykmertools get_header for k 1..=8. Non-trivial = each canonical code / header checked. The index maps (all codes) and the header line for k 1..=7 are recomputed under `taskset` with 1, 2, 3 and 6 usable CPUs (thorough: every count below the machine's).",
         "assumptions": COMMON_ASSUME,
     },
     "C04": {
@@ -104,7 +104,7 @@ PROPS.update({
                 "(threads, memory) settings with the same or a different counting input; high-multiplicity and "
                 "200-record inputs; compute_coverages on harness-written tables. Oracle: model histogram, one row "
                 "per record in order. Non-trivial = record with at least one window position."
-                " Batch path under the controlled scheduler: every order in which the items of a batch of 2 or 3 records run (4 records: up to the stated preemption bound), one batch and several batches, each item being a task whose shim lock / atomic operations are scheduling points; oracle per schedule: the bytes of the one-thread run.",
+                " Batch path under the controlled scheduler: every order in which the items of a batch of 2 or 3 records run (4 records: up to the stated preemption bound), one batch and several batches, each item being a task whose shim lock / atomic operations are scheduling points; oracle per schedule: the bytes of the one-thread run. Usable CPUs as an environment dimension: the command line under `taskset` with 1, 2, 3 and 6 usable CPUs (thorough: every count below the machine's) x -t in (0,1,2,3,4,8,16) x 3, 16 and 37 records; oracle: the result of the unrestricted one-thread run.",
         "assumptions": COMMON_ASSUME + ["worker threads of the counting step run free in this check (their interleavings are decided in C07)",
                                         "'flush every few records' cannot be reached: the batch threshold is a whole number of GiB"],
     },
@@ -117,7 +117,7 @@ PROPS.update({
                 "{A,C,G,T,N,x} and every byte value outside the ten letters in short contexts must be refused; long "
                 "periodic inputs for prefix determinism and sub-square containment; the file path on 7 record sets "
                 "x threads 1..=16 x 3 batch limits. Non-trivial = non-empty input."
-                " Batch path under the controlled scheduler: every order in which the items of a batch of 2 or 3 records run (4 records: up to the stated preemption bound), one batch and several batches, each item being a task whose shim lock / atomic operations are scheduling points; oracle per schedule: the bytes of the one-thread run.",
+                " Batch path under the controlled scheduler: every order in which the items of a batch of 2 or 3 records run (4 records: up to the stated preemption bound), one batch and several batches, each item being a task whose shim lock / atomic operations are scheduling points; oracle per schedule: the bytes of the one-thread run. Usable CPUs as an environment dimension: the command line under `taskset` with 1, 2, 3 and 6 usable CPUs (thorough: every count below the machine's) x -t in (0,1,2,3,4,8,16) x 3, 16 and 37 records; oracle: the result of the unrestricted one-thread run.",
         "assumptions": COMMON_ASSUME + ["batches with more items than pool threads run free (which items start first is then rayon's choice); tasks that do not announce themselves (a bare scope.spawn) are not scheduled"],
     },
     "C12": {
@@ -128,7 +128,7 @@ PROPS.update({
                 "a structured family (k 4..=7): one triple per canonical column in rank order, coordinates bit-exact "
                 "= chaos-game end point of the column's k-mer text, frequency identical to the oligo vector and to "
                 "the model; file path x threads x batch limits. Non-trivial = record at least k long."
-                " Batch path under the controlled scheduler: every order in which the items of a batch of 2 or 3 records run (4 records: up to the stated preemption bound), one batch and several batches, each item being a task whose shim lock / atomic operations are scheduling points; oracle per schedule: the bytes of the one-thread run.",
+                " Batch path under the controlled scheduler: every order in which the items of a batch of 2 or 3 records run (4 records: up to the stated preemption bound), one batch and several batches, each item being a task whose shim lock / atomic operations are scheduling points; oracle per schedule: the bytes of the one-thread run. Usable CPUs as an environment dimension: the command line under `taskset` with 1, 2, 3 and 6 usable CPUs (thorough: every count below the machine's) x -t in (0,1,2,3,4,8,16) x 3, 16 and 37 records; oracle: the result of the unrestricted one-thread run.",
         "assumptions": COMMON_ASSUME + ["batches with more items than pool threads run free (which items start first is then rayon's choice); tasks that do not announce themselves (a bare scope.spawn) are not scheduled"],
     },
 })
@@ -177,7 +177,7 @@ PROPS.update({
                 "short ones) x threads 1..=16 x batch limits x both writers x 7 containers (x header x "
                 "delimiters), and every record count 0..=40, 63..65, 127, 129 x threads 1..=8, 16: row i = record i. "
                 "states = branching decision points + terminal states, transitions = scheduling steps executed, "
-                "traces = complete schedules executed on the real code. Every schedule/configuration is distinct.",
+                "traces = complete schedules executed on the real code. Every schedule/configuration is distinct. Usable CPUs as an environment dimension: the command line under `taskset` with 1, 2, 3 and 6 usable CPUs (thorough: every count below the machine's) x -t in (0,1,2,3,4,8,16) x 3, 16 and 37 records; oracle: the result of the unrestricted one-thread run.",
         "states": SCHED_STATES,
         "assumptions": SCHED_ASSUME + ["batches with more items than pool threads run free (which items start first is then rayon's choice); tasks that do not announce themselves (a bare scope.spawn) are not scheduled"],
     },
@@ -210,7 +210,7 @@ PROPS.update({
                 "configurations: every single record over {A,C,G,T,N}^(<=4) and every pair over two alphabets holding "
                 "both strands (thorough: more alphabets and triples) x k x 8 (threads, ceiling) settings (1 to 14 "
                 "chunks, 1 to 700 partitions, one to 16 workers), ACGT and numeric rendering, repetitive inputs for "
-                "k 15, 31.",
+                "k 15, 31. Usable CPUs as an environment dimension: the command line under `taskset` with 1, 2, 3 and 6 usable CPUs (thorough: every count below the machine's) x -t in (0,1,2,3,4,8,16) x 3, 16 and 37 records; oracle: the result of the unrestricted one-thread run.",
         "states": SCHED_STATES,
         "assumptions": SCHED_ASSUME + ["merge scheduling is explored when chunks <= pool threads (otherwise which chunk tasks start first is rayon's choice and the phase runs free)",
                                        "configuration runs use free-running threads"],
@@ -225,7 +225,7 @@ PROPS.update({
                 "s2m = one line per record with the model's runs (multiset of lines), m2s = exact inversion of the "
                 "model's s2m (multiset per minimiser), w=0 means the whole record. configurations: all strings over "
                 "{A,C,G,T,N} up to length 5 (thorough 6) as one file x m 1..=3 x w in (0,m+1,m+2) x threads "
-                "(1,2,4,16), and every list of 2 (thorough 3) short records x 5 settings.",
+                "(1,2,4,16), and every list of 2 (thorough 3) short records x 5 settings. Usable CPUs as an environment dimension: the command line under `taskset` with 1, 2, 3 and 6 usable CPUs (thorough: every count below the machine's) x -t in (0,1,2,3,4,8,16) x 3, 16 and 37 records; oracle: the result of the unrestricted one-thread run. More than 2^16 records (one longer record, then 65 600 short ones): every way of preempting the workers within the first 16 (thorough 40) decisions, each continued by default, so that a preempted worker resumes after the others have taken every remaining record.",
         "states": SCHED_STATES,
         "assumptions": SCHED_ASSUME + ["configuration runs use free-running threads"],
     },
@@ -276,7 +276,7 @@ PROPS.update({
                 "to length 4 and every code point of the Basic Multilingual Plane (plus a stride through the astral "
                 "planes) alone and inside a clean context; batch calls of every size 0..=64, 1000, 4096 under 4 pool sizes; iterators drained "
                 "after their source string was released and the heap churned. Oracle: what the core crates compute "
-                "on the same bytes (expectation file from ktmc). Non-trivial = non-empty expected result.",
+                "on the same bytes (expectation file from ktmc). Non-trivial = non-empty expected result. One batch per shape (many small / medium / few large records) whose sequences add up to more than 2^28 bases (thorough: also more than 2^32); oracle: vectorise_one of each record, in argument order.",
         "assumptions": HIST_ASSUME + ["rayon's schedule inside the extension's batch calls is not controlled (closure is pure; ordered collect trusted)"],
     },
 })
@@ -305,7 +305,7 @@ PROPS.update({
                 "temp files of larger chunk x partition grids); search from the empty location and from a location "
                 "pre-filled with longer garbage, to a fixpoint or depth 3 (thorough 4; the counter/coverage directory one level less); invariant on every transition: "
                 "documented result files = the same run alone in a fresh location (bytes for ordered outputs, line "
-                "multisets for unordered ones); the same run twice is part of every state's fan-out.",
+                "multisets for unordered ones); the same run twice is part of every state's fan-out. File identity across file systems (private mount namespace, two fresh tmpfs mounts): for 8 subcommand variants the stale output lies on another file system with the input's inode number (the -o path, and the result file inside a directory output), on another file system with another number, or on the input's own; oracle: same canonical content as a fresh location.",
         "states": (["hist.states"], ["hist.transitions"], ["hist.traces"]),
         "assumptions": HIST_ASSUME + ["state canonicalisation hashes unordered files as sorted line multisets: later runs truncate or rewrite them before reading, so line order cannot influence the future"],
     },
